@@ -11,61 +11,71 @@ package main
 // property is not run twice.
 
 var supportRules = map[string]func(*Report){
-	"atomic-rmw":                ruleAtomicRMW,
-	"bucket-after-write":        ruleBucketAfterWrite,
-	"chunk-accounting":          ruleChunkAccounting,
-	"close-mustcall":            ruleCloseMustCall,
-	"commit-order":              ruleCommitOrder,
-	"config-wiring":             ruleConfigWiring,
-	"deleted-check":             ruleDeletedCheck,
-	"erruse":                    ruleErrUse,
-	"fc-client":                 ruleFCClient,
-	"fc-close-guard":            ruleFCCloseGuard,
-	"fc-identity":               ruleFCIdentity,
-	"fc-locked":                 ruleFCLocked,
-	"fc-refs":                   ruleFCRefs,
-	"fc-removed-writes":         ruleFCRemovedWrites,
-	"fc-shrink":                 ruleFCShrink,
-	"firstfile-guard":           ruleFirstFileGuard,
-	"free-after-index":          ruleFreeAfterIndex,
-	"freelist-consume":          ruleFreelistConsume,
-	"gc-flush-first":            ruleGCFlushFirst,
-	"gc-mark-guard":             ruleGCMarkGuard,
-	"gc-not-current":            ruleGCNotCurrent,
-	"go-handshake":              ruleGoHandshake,
-	"immutable-noeffect":        ruleImmutableNoEffect,
-	"index-names-new-location":  ruleIndexNamesNewLocation,
-	"iterate-all":               ruleIterateAll,
-	"keycheck":                  ruleKeyCheck,
-	"layout":                    ruleLayout,
-	"lookup-both-pools":         ruleLookupBothPools,
-	"merge-framing":             ruleMergeFraming,
-	"meta-atomic":               ruleMetaAtomic,
-	"opaque-value":              ruleOpaqueValue,
-	"open-release":              ruleOpenRelease,
-	"pool-order":                rulePoolOrder,
-	"pool-swap":                 rulePoolSwap,
-	"pool-values-fresh":         rulePoolValuesFresh,
-	"pos-codec":                 rulePosCodec,
-	"predict":                   rulePredict,
-	"primary-mark":              rulePrimaryMark,
-	"published-bytes-immutable": rulePublishedBytes,
-	"reloc-binding":             ruleRelocBinding,
-	"rescan-applies-all":        ruleRescanAppliesAll,
-	"retain":                    ruleRetain,
-	"rollover-siblings":         ruleRolloverSiblings,
-	"rollover-switch":           ruleRolloverSwitch,
-	"samevalue-guard":           ruleSameValueGuard,
-	"scan-from-firstfile":       ruleScanFromFirstFile,
-	"snapshot":                  ruleSnapshot,
-	"span-pair":                 ruleSpanPair,
-	"splice":                    ruleSplice,
-	"strip-whole-bytes":         ruleStripWholeBytes,
-	"tail-recovery":             ruleTailRecovery,
-	"togc":                      ruleToGC,
-	"translate-order":           ruleTranslateOrder,
-	"upgrade-order":             ruleUpgradeOrder,
-	"header-before-remove":      func(r *Report) { ruleHeaderBeforeRemove(r, "header-before-remove") },
+	"atomic-rmw":                    ruleAtomicRMW,
+	"bucket-after-write":            ruleBucketAfterWrite,
+	"chunk-accounting":              ruleChunkAccounting,
+	"close-mustcall":                ruleCloseMustCall,
+	"commit-order":                  ruleCommitOrder,
+	"config-wiring":                 ruleConfigWiring,
+	"deleted-check":                 ruleDeletedCheck,
+	"erruse":                        ruleErrUse,
+	"fc-client":                     ruleFCClient,
+	"fc-close-guard":                ruleFCCloseGuard,
+	"fc-identity":                   ruleFCIdentity,
+	"fc-locked":                     ruleFCLocked,
+	"fc-refs":                       ruleFCRefs,
+	"fc-removed-writes":             ruleFCRemovedWrites,
+	"fc-shrink":                     ruleFCShrink,
+	"firstfile-guard":               ruleFirstFileGuard,
+	"free-after-index":              ruleFreeAfterIndex,
+	"freelist-consume":              ruleFreelistConsume,
+	"gc-flush-first":                ruleGCFlushFirst,
+	"gc-mark-guard":                 ruleGCMarkGuard,
+	"gc-not-current":                ruleGCNotCurrent,
+	"go-handshake":                  ruleGoHandshake,
+	"immutable-noeffect":            ruleImmutableNoEffect,
+	"index-names-new-location":      ruleIndexNamesNewLocation,
+	"iterate-all":                   ruleIterateAll,
+	"keycheck":                      ruleKeyCheck,
+	"layout":                        ruleLayout,
+	"lookup-both-pools":             ruleLookupBothPools,
+	"merge-framing":                 ruleMergeFraming,
+	"meta-atomic":                   ruleMetaAtomic,
+	"opaque-value":                  ruleOpaqueValue,
+	"open-release":                  ruleOpenRelease,
+	"pool-order":                    rulePoolOrder,
+	"pool-swap":                     rulePoolSwap,
+	"pool-values-fresh":             rulePoolValuesFresh,
+	"pos-codec":                     rulePosCodec,
+	"predict":                       rulePredict,
+	"primary-mark":                  rulePrimaryMark,
+	"published-bytes-immutable":     rulePublishedBytes,
+	"reloc-binding":                 ruleRelocBinding,
+	"rescan-applies-all":            ruleRescanAppliesAll,
+	"retain":                        ruleRetain,
+	"rollover-siblings":             ruleRolloverSiblings,
+	"rollover-switch":               ruleRolloverSwitch,
+	"samevalue-guard":               ruleSameValueGuard,
+	"scan-from-firstfile":           ruleScanFromFirstFile,
+	"snapshot":                      ruleSnapshot,
+	"span-pair":                     ruleSpanPair,
+	"splice":                        ruleSplice,
+	"strip-whole-bytes":             ruleStripWholeBytes,
+	"tail-recovery":                 ruleTailRecovery,
+	"togc":                          ruleToGC,
+	"translate-order":               ruleTranslateOrder,
+	"upgrade-order":                 ruleUpgradeOrder,
+	"scan-complete-before-truncate": ruleScanCompleteBeforeTruncate,
+	"flush-callers":                 ruleFlushCallers,
+	"header-persist":                ruleHeaderPersist,
+	"close-reports-errors":          ruleCloseReportsErrors,
+	"pool-flush-complete":           rulePoolFlushComplete,
+	"translate-all":                 ruleTranslateAll,
+	"notify":                        ruleNotify,
+	"notify-reset":                  ruleNotifyReset,
+	"wait-protocol":                 ruleWaitProtocol,
+	"flusher":                       ruleFlusher,
+	"header-before-remove":          func(r *Report) { ruleHeaderBeforeRemove(r, "header-before-remove") },
 	"race": func(r *Report) {
 		la, rt := runLockAnalysis(r, "race")
 		reportRaces(r, la, rt, "race", nil, nil)
@@ -78,10 +88,14 @@ var (
 	grpMap = []string{"keycheck", "samevalue-guard", "opaque-value", "immutable-noeffect", "pool-order", "predict", "splice", "pos-codec",
 		"iterate-all", "config-wiring", "index-names-new-location"}
 	grpGC = []string{"gc-mark-guard", "primary-mark", "retain", "reloc-binding", "gc-flush-first", "gc-not-current", "free-after-index", "togc",
-		"deleted-check", "header-before-remove", "firstfile-guard", "merge-framing", "span-pair", "rescan-applies-all", "freelist-consume"}
-	grpPools  = []string{"atomic-rmw", "pool-swap", "lookup-both-pools", "published-bytes-immutable", "pool-values-fresh", "bucket-after-write"}
-	grpFormat = []string{"layout", "predict", "pos-codec", "rollover-siblings", "strip-whole-bytes"}
-	grpCache  = []string{"fc-close-guard", "fc-identity", "fc-refs", "fc-removed-writes", "fc-shrink", "fc-locked", "fc-client"}
+		"deleted-check", "header-before-remove", "firstfile-guard", "merge-framing", "span-pair", "rescan-applies-all", "freelist-consume",
+		"scan-complete-before-truncate"}
+	grpPools = []string{"atomic-rmw", "pool-swap", "lookup-both-pools", "published-bytes-immutable", "pool-values-fresh", "bucket-after-write", "pool-flush-complete"}
+	// a writer blocked by the rate limiter must be woken: "every call returns"
+	grpBackpressure = []string{"notify", "notify-reset", "wait-protocol", "flusher"}
+	grpOrder        = []string{"commit-order", "flush-callers", "header-persist", "close-reports-errors", "rollover-switch"}
+	grpFormat       = []string{"layout", "predict", "pos-codec", "rollover-siblings", "strip-whole-bytes"}
+	grpCache        = []string{"fc-close-guard", "fc-identity", "fc-refs", "fc-removed-writes", "fc-shrink", "fc-locked", "fc-client"}
 )
 
 func (r *Report) support(groups ...[]string) {
@@ -103,6 +117,7 @@ func (r *Report) support(groups ...[]string) {
 				continue
 			}
 			fn(r)
+			r.Supporting = append(r.Supporting, n)
 		}
 	}
 }
